@@ -1,5 +1,6 @@
 import CookModel.Lemmas.Lexer
 import CookModel.Lemmas.Text
+import CookModel.Lemmas.LexLaws
 /-
   C04  Every reported source location is in bounds, on char boundaries, faithful.
 
@@ -66,5 +67,30 @@ theorem C04_whole_input_text_faithful (cs : CharSpec) (s : List Char) :
 example : (buildText 0 [⟨.word, ['a'], 0⟩, ⟨.blockComment, "[-x-]".toList, 1⟩, ⟨.escaped, ['\\', 'é'], 6⟩,
     ⟨.newline, ['\n'], 9⟩, ⟨.word, ['b'], 10⟩]).frags =
     [⟨['a'], 0, false⟩, ⟨['é'], 7, false⟩, ⟨['\n'], 9, true⟩, ⟨['b'], 10, false⟩] := by decide
+
+/-- The kind of a token is faithful to its text (`KindText`): an `int` token is a non-empty run
+    of ASCII digits that does not start with 0 unless it is the single digit 0, a `zeroInt` starts
+    with 0 and has more digits, a `newline` is LF or CRLF, an `escaped` is a backslash with at most
+    one more character, a line comment starts with `--` and contains no LF, a block comment starts
+    with `[-` and has no `-]` before its end, whitespace is a non-empty run of lexer whitespace, a
+    word is one character that is none of the special ones followed by word characters,
+    punctuation and the single character kinds are exactly their character, `>>`, `>`, `-`. -/
+theorem C04_lex_kinds_faithful (cs : CharSpec) (off : Nat) (s : List Char) :
+    ∀ t ∈ lexFrom cs off s, KindText cs t.kind t.text := lexFrom_kindText cs off s
+
+/-- Full strength (includes maximality: what character may follow a token): each token is
+    spelled as `spellOK` demands with respect to the first character of the rest of the input. -/
+theorem C04_lex_well_spelled (cs : CharSpec) (off : Nat) (s : List Char) :
+    WellSpelled cs (lexFrom cs off s) := lexFrom_wellSpelled cs off s
+
+/-! `KindText` is not vacuous: it rejects a wrong pairing of kind and text -/
+example : ¬ KindText toyCharSpec .int ['0', '7'] := by
+  intro h; have := h.1 rfl; simp at this
+example : ¬ KindText toyCharSpec .colon [';'] := by
+  intro h
+  obtain ⟨c, h1, h2⟩ := h.2.2.2.2.2.2.2.2.2.2.2.2 (by decide)
+  simp only [List.cons.injEq, and_true] at h1
+  subst h1
+  revert h2; decide
 
 end Cook
